@@ -374,6 +374,9 @@ func (s *Session) finish(prep *Prepared) {
 			switch j.ob.kind {
 			case "assert", "panic", "known":
 				j.out.Replay, j.out.Detail = s.replayNative(spec, file, j.ob.kind, j.ob.msg)
+				if tr := ex.DescribeFinal(r.Model); len(tr) > 0 {
+					j.out.Detail += " || end of the symbolic schedule: " + strings.Join(tr, "; ")
+				}
 			case "cover":
 				if len(res.Samples) < 3 {
 					if data, err := os.ReadFile(file); err == nil {
